@@ -29,6 +29,7 @@ PRED = {
     "constraints_are_up_to_date": "CU", "generators_are_up_to_date": "GU",
     "constraints_are_minimized": "CM", "generators_are_minimized": "GM",
     "sat_c_is_up_to_date": "SC", "sat_g_is_up_to_date": "SG",
+    "marked_empty": "ME",
 }
 ALL_GOOD = {"PG": False, "PC": False, "CU": True, "GU": True, "CM": True, "GM": True}
 # effect of (possibly const) members on the lazy facts of their receiver
@@ -63,6 +64,9 @@ def entails(st, atom, val):
     (pending rows exist only on one side and only on top of two minimized, up-to-date descriptions)?"""
     if st.get(atom) is val:
         return True
+    if atom == "ME" and val is False:
+        # the status of a marked-empty object claims nothing else; a known non-empty object is not marked empty
+        return any(st.get(a) is True for a in ("NE", "CU", "GU", "CM", "GM", "PC", "PG", "SP"))
     if atom == "NE" and val is True:
         # a complete generator description of an object not marked empty holds a point
         return entails(st, "GU", True) and entails(st, "PC", False)
@@ -185,7 +189,7 @@ def mine(ctx):
     return req
 
 
-NAMES = {"NE": "<known non-empty>", "SP": "has_something_pending()", "PG": "has_pending_generators()", "PC": "has_pending_constraints()", "CU": "constraints_are_up_to_date()",
+NAMES = {"ME": "marked_empty()", "NE": "<known non-empty>", "SP": "has_something_pending()", "PG": "has_pending_generators()", "PC": "has_pending_constraints()", "CU": "constraints_are_up_to_date()",
          "GU": "generators_are_up_to_date()", "CM": "constraints_are_minimized()", "GM": "generators_are_minimized()",
          "SC": "sat_c_is_up_to_date()", "SG": "sat_g_is_up_to_date()"}
 
@@ -416,7 +420,13 @@ def discharge(ctx, rid, exceptions=None, judged_atoms=("PG", "PC", "CU", "GU", "
                     if a_ in judged_atoms + ("SP",) and not entails(state_of(env, o_), a_, v_):
                         afail.setdefault(in_assert[top["i"]]["i"], ((o_, a_, v_), dict(state_of(env, o_)), top))
                 return None
-            if nm in PRED:
+            if nm == "marked_empty":
+                if truth:
+                    return None       # the callers return (or take the empty-object branch) on this edge
+                env = dict(env)
+                env[(o, "ME")] = False
+                env.pop((o, "ME?"), None)
+            elif nm in PRED:
                 env = dict(env)
                 env[(o, PRED[nm])] = truth
                 if nm == "has_pending_constraints" and truth:
@@ -524,6 +534,8 @@ def _entails_poly(st, atom, val):
 def entails_grid(st, atom, val):
     if st.get(atom) is val:
         return True
+    if atom == "ME" and val is False:
+        return any(st.get(a) is True for a in ("NE", "CU", "GU", "CM", "GM"))
     if atom == "NE" and val is True:
         return entails_grid(st, "GU", True)
     # a non-empty grid has at least one description up to date; minimized implies up to date
@@ -553,7 +565,7 @@ GRID = {
     "ANCHOR": ("select_wider_congruences", 2),
     "MIN_REQ": 4,
     "PRED": {"congruences_are_up_to_date": "CU", "generators_are_up_to_date": "GU",
-             "congruences_are_minimized": "CM", "generators_are_minimized": "GM"},
+             "congruences_are_minimized": "CM", "generators_are_minimized": "GM", "marked_empty": "ME"},
     "EFFECT": {
         "minimize": GRID_ALL,
         "update_congruences": {"CU": True, "CM": True}, "update_generators": {"GU": True, "GM": True},
@@ -566,7 +578,7 @@ GRID = {
     "EMPTY_IF_FALSE": ("minimize", "update_generators", "simplify"),
     "entails": entails_grid,
     "NEED": {"con_sys": (("CU", True),), "gen_sys": (("GU", True),)},
-    "NAMES": {"NE": "<known non-empty>", "CU": "congruences_are_up_to_date()", "GU": "generators_are_up_to_date()",
+    "NAMES": {"ME": "marked_empty()", "NE": "<known non-empty>", "CU": "congruences_are_up_to_date()", "GU": "generators_are_up_to_date()",
               "CM": "congruences_are_minimized()", "GM": "generators_are_minimized()"},
     "KEEPS_RECEIVER_UNLESS_COMMITTED": (),
     "SKIP_FUNCS": SKIP_FUNCS + ("construct",),
